@@ -158,6 +158,17 @@ def r2(ctx, cfg):
         app_o = peel(a[0])
         ok = app_o[0] == "agg" and app_o[1].startswith("app::App") and is_param(a[1], "init_fn") and all(cf.must_pass(ib, r) for r in cf.return_blocks())
         ok = ok and ib not in cf.reachable_from(ib)
+    elif not im:
+        # the same step written out: `init_fn(&mut app.router, &app.api, &mut app.storage)` on the App being built
+        once = [(b2, t2) for b2, t2 in q.calls(f, ("std::ops::FnOnce", "call_once")) if is_param(P.call_args(f, t2, b2)[0], "init_fn")]
+        if len(once) == 1:
+            ib, it = once[0]
+            tup = peel(P.call_args(f, it, ib)[1])
+
+            # (the provenance of `&mut app.router` is the value the App aggregate was built with)
+            ok = tup[0] == "agg" and len(tup[2]) == 3 and same_origin(tup[2][0][1], d["router"]) and same_origin(tup[2][1][1], d["api"]) and \
+                same_origin(tup[2][2][1], d["storage"]) and all(cf.must_pass(ib, r) for r in cf.return_blocks()) and ib not in cf.reachable_from(ib) and \
+                cf.dominates(b, ib)
     ctx.ob(R, key, "init_fn-runs-once-on-built-app", ok, "build does not call app.init_modules(init_fn) exactly once on every path", fn=f,
            sample="app.init_modules(init_fn) dominates return, not in a loop")
     ret = peel(P.ret(f))
